@@ -3,7 +3,7 @@ use nom::{
     branch::alt,
     bytes::complete::{is_a, tag, tag_no_case},
     character::complete::{digit1, hex_digit1},
-    combinator::{complete, map, map_res, opt, rest, value},
+    combinator::{complete, cut, map, map_res, opt, rest, value},
     number::complete::float,
     sequence::{delimited, preceded, terminated, tuple},
     IResult,
@@ -16,17 +16,21 @@ fn ws(input: &str) -> IResult<&str, &str> {
     is_a(" \t")(input)
 }
 
+// Once the prefix matched, the number must be a valid byte. Without the `cut`
+// an overflowing `0x100` fell back to the decimal parser, which read the `0`.
 fn nr_hex(input: &str) -> IResult<&str, u8> {
-    map_res(preceded(tag_no_case("0x"), hex_digit1), |nr| {
-        u8::from_str_radix(nr, 16)
-    })(input)
+    preceded(
+        tag_no_case("0x"),
+        cut(map_res(hex_digit1, |nr| u8::from_str_radix(nr, 16))),
+    )(input)
 }
 
 fn nr_bin(input: &str) -> IResult<&str, u8> {
     let bits = is_a("01");
-    map_res(preceded(tag_no_case("0b"), bits), |nr| {
-        u8::from_str_radix(nr, 2)
-    })(input)
+    preceded(
+        tag_no_case("0b"),
+        cut(map_res(bits, |nr| u8::from_str_radix(nr, 2))),
+    )(input)
 }
 
 fn nr_dec(input: &str) -> IResult<&str, u8> {
